@@ -36,6 +36,9 @@ func runC17(c *Ctx) {
 		return
 	}
 	info := pk.TypesInfo
+	// Lock/RLock record the caller's stack trace in debug mode while holding the internal mutex: the
+	// trace helpers must not panic on a line shape they did not expect
+	checkIndexResultGuarded(r, p, "trace/index-result-guarded", []string{"runtime/debug"})
 	conds := discoverConds(p, pkg)
 	if len(conds) < 6 {
 		r.Fail("cond/wiring", pkg, "-", fmt.Sprintf("expected the 6 condition variables of StarvingMutex, Counter and Stack to be wired to a Locker in their constructors, found %v", conds))
@@ -302,20 +305,7 @@ func runC17(c *Ctx) {
 	// who changes Counter.value: only set/update; who calls them: only Set/Update
 	checkWritesOnBehalfOf(r, p, pkg, "Counter", "value", []string{"Set", "Update"})
 	// Stack
-	isListMut := func(name string) func(ast.Node) bool {
-		return func(n ast.Node) bool {
-			c, ok := n.(*ast.CallExpr)
-			if !ok {
-				return false
-			}
-			se, ok := ast.Unparen(c.Fun).(*ast.SelectorExpr)
-			return ok && se.Sel.Name == name && fieldSel(info, se.X, "elements")
-		}
-	}
-	checkWakeRow(r, p, pkg, "Stack", "Push", wakeRow{Name: "element added", Change: isListMut("PushBack"), Conds: []string{"elementAdded"}})
-	for _, m := range []string{"Pop", "PopOrWait"} {
-		checkDeferredSuccessBroadcast(r, p, pkg, "Stack", m, "elementRemoved", isListMut("Remove"))
-	}
+	checkStackWakeRows(r, p)
 	// (5) exclusion bookkeeping
 	checkStarvingBookkeeping(r, p)
 	// (6) unlock-not-held panics
@@ -968,5 +958,32 @@ func checkWritesOnBehalfOf(r *Reporter, p *Prog, pkg, typ, field string, roots [
 		r.Fail("who/writes", key, "-", "written by a function that is not (only) reached from the tabled operations, to which the wake-up obligations are attached: "+strings.Join(bad, "; "))
 	} else {
 		r.Pass("who/writes", key, "-", fmt.Sprintf("%d write(s), all in the operations or in unexported helpers only they call", n))
+	}
+}
+
+// checkStackWakeRows: the queue of the worker pool - an element added wakes a waiting consumer, a
+// successful removal wakes the waiters for "empty"/"below". (Also an obligation of the properties that
+// are built on the pool's queue.)
+func checkStackWakeRows(r *Reporter, p *Prog) {
+	const pkg = "runtime/syncutils"
+	pk := p.Pkg(pkg)
+	if pk == nil {
+		r.Unresolved("cond/wake-obligation", pkg+".Stack", "package not loaded")
+		return
+	}
+	info := pk.TypesInfo
+	isListMut := func(name string) func(ast.Node) bool {
+		return func(n ast.Node) bool {
+			c, ok := n.(*ast.CallExpr)
+			if !ok {
+				return false
+			}
+			se, ok := ast.Unparen(c.Fun).(*ast.SelectorExpr)
+			return ok && se.Sel.Name == name && fieldSel(info, se.X, "elements")
+		}
+	}
+	checkWakeRow(r, p, pkg, "Stack", "Push", wakeRow{Name: "element added", Change: isListMut("PushBack"), Conds: []string{"elementAdded"}})
+	for _, m := range []string{"Pop", "PopOrWait"} {
+		checkDeferredSuccessBroadcast(r, p, pkg, "Stack", m, "elementRemoved", isListMut("Remove"))
 	}
 }
